@@ -11,6 +11,7 @@ import (
 	"net/http"
 	"net/http/httptest"
 	"net/url"
+	"reflect"
 	"sort"
 	"strings"
 
@@ -26,19 +27,19 @@ type Route struct {
 
 // Req is a request to a route pattern.
 type Req struct {
-	Params     map[string]string // path parameters by name
-	Query      map[string]string // query values that are present
-	Headers    map[string]string
-	Body       any  // value that the handler's Bind/BindJSON target receives (must be of its type); nil = no body
-	BindFails  bool // the body cannot be bound (malformed JSON / wrong JSON types)
+	Params    map[string]string // path parameters by name
+	Query     map[string]string // query values that are present
+	Headers   map[string]string
+	Body      any  // value that the handler's Bind/BindJSON target receives (must be of its type); nil = no body
+	BindFails bool // the body cannot be bound (malformed JSON / wrong JSON types)
 }
 
 // Resp is what was written.
 type Resp struct {
-	Status    int  // status line of the response
-	Documents int  // number of JSON documents written to the body
-	Aborted   bool // the chain was aborted (symbolic only; natively unknown = false)
-	Panicked  bool // a handler panicked (gin.Recovery answers 500)
+	Status    int    // status line of the response
+	Documents int    // number of JSON documents written to the body
+	Aborted   bool   // the chain was aborted (symbolic only; natively unknown = false)
+	Panicked  bool   // a handler panicked (gin.Recovery answers 500)
 	ErrCode   string // "code" of the last document when it is an error object
 	ErrMsg    string // "message" of the last document when it is an error object
 	Opaque    bool   // the final handler is a wrapped net/http handler (swagger, pprof, metrics)
@@ -50,6 +51,24 @@ func SameAnswer(a, b Resp) bool {
 	as, _ := a.Body.(string)
 	bs, _ := b.Body.(string)
 	return a.Status == b.Status && as == bs
+}
+
+// BodyIs: the response body is exactly one JSON document, the encoding of want (natively compared
+// as JSON values; symbolically the value handed to c.JSON is compared with want).
+func BodyIs(r Resp, want any) bool {
+	text, _ := r.Body.(string)
+	var got, exp any
+	if err := json.Unmarshal([]byte(text), &got); err != nil {
+		return false
+	}
+	b, err := json.Marshal(want)
+	if err != nil {
+		return false
+	}
+	if err := json.Unmarshal(b, &exp); err != nil {
+		return false
+	}
+	return r.Documents == 1 && reflect.DeepEqual(got, exp)
 }
 
 // NewEngine returns an engine without routes.
